@@ -485,7 +485,44 @@ def r08_5(ctx):
     ctx.decide('R08.5', ae.qual, 'scalar matrices: asformat(format)', ok, ae.node)
 
 
+def r08_7(ctx):
+    """The generic vector cores receive the per-level block patterns as a TUPLE (assemble_entries_vec passes
+    X.structure.bidx[:dim], a slice of a tuple) and must take it apart element by element for EVERY dimension: the d-dimensional
+    core unpacks exactly d patterns.  `bidx0 = bidx` (what a plain `a, b = t` template degenerates to for d = 1) binds the whole
+    tuple to a typed memoryview and raises TypeError for every format that goes through the cores, while packed+bsr (which
+    does not) still works."""
+    av = ctx.prog.func(A + '.assemble_entries_vec')
+    n = 0
+    for d in (1, 2, 3):
+        f = ctx.prog.maybe_func('pyiga.assemble_tools_cy.generic_assemble_core_vec_%dd' % d)
+        if f is None:
+            continue
+        params = [a.arg for a in f.node.args.args]
+        if len(params) < 2:
+            continue
+        pat = params[1]
+        binds = [s_ for s_ in own_nodes(f.node) if isinstance(s_, ast.Assign) and isinstance(s_.value, ast.Name) and s_.value.id == pat]
+        # what the caller passes for this parameter
+        calls = [c for c in ast.walk(av.node) if isinstance(c, ast.Call) and (call_name(c) or '').endswith('generic_assemble_core_vec_%dd' % d)]
+        passes_tuple = bool(calls) and len(calls[0].args) > 1 and isinstance(calls[0].args[1], ast.Subscript) \
+            and isinstance(calls[0].args[1].slice, ast.Slice)
+        for b in binds:
+            n += 1
+            t = b.targets[0]
+            if isinstance(t, (ast.Tuple, ast.List)):
+                ctx.decide('R08.7', f.qual, src(b), len(t.elts) == d, b, 'the %d-dimensional core unpacks %d block patterns' % (d, d), definite=True)
+            elif passes_tuple:
+                ctx.violated('R08.7', f.qual, src(b), b,
+                             'assemble_entries_vec passes a tuple of block patterns (`%s`), but the %d-dimensional core binds the whole tuple to '
+                             'one typed pattern instead of unpacking it: every format that is assembled through this core (csr, csc, coo, mlb) '
+                             'raises TypeError for %d-dimensional vector-valued forms while packed+bsr works' % (src(calls[0].args[1]), d, d))
+            else:
+                ctx.undecided('R08.7', f.qual, src(b), b, 'caller argument not recognised')
+    ctx.floor('R08.7', 'bindings of the block patterns in the generic vector cores', n, 3)
+
+
 def run(ctx):
+    r08_7(ctx)
     r08_1(ctx)
     r08_2(ctx)
     r08_3(ctx)
